@@ -1231,6 +1231,7 @@ static void do_reprt(CMR* cmr) { repmat_common(cmr, true); }
 /* ---------- C09: Camion signing ---------- */
 
 /* case: M   record: see CamionModel.judge_camion */
+static __thread bool camion_echo_rest = false;
 static void do_camion(CMR* cmr)
 {
   CMR_CHRMAT* M = read_chrmat(cmr);
@@ -1268,10 +1269,19 @@ static void do_camion(CMR* cmr)
   oi(rc ? 0 : 1);
   if (!rc)
     o_chr_csr(S2);
+  if (camion_echo_rest)
+    o_rest();       /* api camion_cert: a certified totally unimodular matrix with the same support and its witness, echoed */
   rec_end();
   CMRchrmatFree(cmr, &S2);
   CMRchrmatFree(cmr, &S);
   CMRchrmatFree(cmr, &M);
+}
+
+static void do_camion_cert(CMR* cmr)
+{
+  camion_echo_rest = true;
+  do_camion(cmr);
+  camion_echo_rest = false;
 }
 
 /* ---------- C12: k-sums ---------- */
@@ -2434,12 +2444,13 @@ static struct
   {"regular_cert", do_regular_cert}, /* 24 */
   {"equi_cert", do_equi_cert},    /* 25 */
   {"balanced_cert", do_balanced_cert}, /* 26 */
+  {"camion_cert", do_camion_cert}, /* 27 */
   {"tlimit", do_tlimit},
   {"hist", do_hist},
   {"threads", do_threads},
   {NULL, NULL}
 };
-#define NUM_SUB_APIS 27
+#define NUM_SUB_APIS 28
 
 /* ---------- running a handler with its record captured in memory ---------- */
 
